@@ -1,4 +1,5 @@
 CONSTANTS
+  ALLSETUPS = FALSE
   MAXCUTS = 2
   STREAMS <- StreamsQuick
   TAILS <- TailsAll
